@@ -1,0 +1,78 @@
+//go:build verif
+
+// Contracts for the deductive checks under /verif (comment-only; no code).
+
+package verifcid
+
+// ---- the table from the property statement, by multicodec number (not by the
+// go-multihash constant names the code uses)
+//   sha1 0x11, sha2-256 0x12, sha2-512 0x13, sha3-512..224 0x14..0x17, shake-256 0x19,
+//   keccak-224..512 0x1a..0x1d, blake3 0x1e, dbl-sha2-256 0x56, identity 0x00,
+//   blake2b-160..512 0xb214..0xb240, blake2s-160..256 0xb254..0xb260
+//@ spec tableAllowed(code uint64) bool = code == 0x11 || code == 0x12 || code == 0x13 || code == 0x14 || code == 0x15 || code == 0x16 || code == 0x17 || code == 0x19 || code == 0x1a || code == 0x1b || code == 0x1c || code == 0x1d || code == 0x1e || code == 0x56 || code == 0x00 || (0xb214 <= code && code <= 0xb240) || (0xb254 <= code && code <= 0xb260)
+//@ spec tableMin(code uint64) int = ite(code == 0x00, 0, 20)
+//@ spec tableMax(code uint64) int = 128
+
+// abstract view of any Allowlist implementation
+//@ spec alAllowed(al Allowlist, code uint64) bool
+//@ spec alMin(al Allowlist, code uint64) int
+//@ spec alMax(al Allowlist, code uint64) int
+//@ func iface Allowlist.IsAllowed
+//@   ensures result == alAllowed(self, code)
+//@ func iface Allowlist.MinDigestSize
+//@   ensures result == alMin(self, code)
+//@ func iface Allowlist.MaxDigestSize
+//@   ensures result == alMax(self, code)
+
+//@ spec cidPrefix(c cid.Cid) cid.Prefix
+//@ func ext (github.com/ipfs/go-cid.Cid).Prefix
+//@   ensures result == cidPrefix(c)
+
+//@ func newErrDigestTooSmall
+//@   prop C04
+//@   arith int
+//@   ensures result != nil
+//@ func newErrDigestTooLarge
+//@   prop C04
+//@   arith int
+//@   ensures result != nil
+//@ func getHashName
+//@   prop C04
+//@   arith int
+
+// "accepts a CID exactly when ..."
+//@ func ValidateCid
+//@   prop C04
+//@   arith int
+//@   ensures[accept_iff] err == nil <==> (alAllowed(allowlist, cidPrefix(c).MhType) && alMin(allowlist, cidPrefix(c).MhType) <= cidPrefix(c).MhLength && cidPrefix(c).MhLength <= alMax(allowlist, cidPrefix(c).MhType))
+//@   ensures[insecure] !alAllowed(allowlist, cidPrefix(c).MhType) ==> err == ErrPossiblyInsecureHashFunction
+
+//@ func (defaultAllowlist).IsAllowed
+//@   prop C04
+//@   arith int
+//@   ensures[table] result == tableAllowed(code)
+//@ func (defaultAllowlist).MinDigestSize
+//@   prop C04
+//@   arith int
+//@   ensures[table] result == tableMin(code)
+//@ func (defaultAllowlist).MaxDigestSize
+//@   prop C04
+//@   arith int
+//@   ensures[table] result == tableMax(code)
+
+//@ func (allowlist).IsAllowed
+//@   prop C04
+//@   arith int
+//@   ensures[map_wins] has(al.allowset, code) ==> result == al.allowset[code]
+//@   ensures[override] !has(al.allowset, code) && al.override != nil ==> result == alAllowed(al.override, code)
+//@   ensures[default_deny] !has(al.allowset, code) && al.override == nil ==> !result
+//@ func (allowlist).MinDigestSize
+//@   prop C04
+//@   arith int
+//@   ensures[override] al.override != nil ==> result == alMin(al.override, code)
+//@   ensures[default] al.override == nil ==> result == tableMin(code)
+//@ func (allowlist).MaxDigestSize
+//@   prop C04
+//@   arith int
+//@   ensures[override] al.override != nil ==> result == alMax(al.override, code)
+//@   ensures[default] al.override == nil ==> result == tableMax(code)
